@@ -101,11 +101,26 @@ Section Idempotent.
   Qed.
 
   (* the hypothesis on the idler is only needed when the code computes the idler waist position from the OLD idler *)
-  Theorem optimum_idempotent s s' nf :
-    collinear_contract K -> (oi = true -> idler_consistent s) ->
+  (* the contract PER INPUT: only what optimising THIS setup asks of the oracles -- the external angle of its (collinear)
+     optimised signal does not depend on the crystal angle, and the emission angle of its optimum idler is the same under the
+     poling before and after optimisation (for the composed model: it is DEFINED under both) *)
+  Definition optimum_contract_at (s : spdc R) : Prop :=
+    (forall th, o_snell_ext K (opt_signal R_ops s) (set_crystal_theta (s_crystal s) th) = o_snell_ext K (opt_signal R_ops s) (s_crystal s)) /\
+    (forall cs pp nfp, opt_crystal_poling R_ops K minpos s (opt_signal R_ops s) = Ok (cs, pp, nfp) ->
+       o_idler_theta K (opt_signal R_ops s) (s_pump s) cs pp = o_idler_theta K (opt_signal R_ops s) (s_pump s) cs (s_pp s)).
+
+  Lemma collinear_contract_every s : collinear_contract K -> optimum_contract_at s.
+  Proof.
+    intros [H1 H2]. pose proof (opt_signal_collinear s) as Hcol. split.
+    - intros th. apply H1. exact Hcol.
+    - intros cs pp nfp _. apply H2. exact Hcol.
+  Qed.
+
+  Theorem optimum_idempotent_at s s' nf :
+    optimum_contract_at s -> (oi = true -> idler_consistent s) ->
     try_as_optimum s = Ok (s', nf) -> try_as_optimum s' = Ok (s', nf).
   Proof.
-    intros HK Hcons H.
+    intros [HK1 HK2] Hcons H.
     pose proof (opt_signal_collinear s) as Hcol.
     revert H. unfold Config.try_as_optimum at 1. cbv zeta.
     destruct (opt_crystal_poling R_ops K minpos s (opt_signal R_ops s)) as [[[cs pp] nfp] | |] eqn:Hcp; cbn [bind fst snd]; try discriminate.
@@ -127,14 +142,16 @@ Section Idempotent.
       destruct (s_pp s) as [| per0 sg0 a].
       - destruct (optimum_theta R_ops K (s_crystal s) sig (s_pump s)) as [th | |] eqn:Hth; cbn [bind]; try discriminate.
         intros H; inversion H; subst cs pp nfp.
-        rewrite (optimum_theta_set (s_crystal s) th sig (s_pump s) HK Hcol), Hth. cbn [bind]. reflexivity.
+        unfold optimum_theta at 1. fold sig in HK1. rewrite (HK1 th), erase_set. fold (optimum_theta R_ops K (s_crystal s) sig (s_pump s)).
+        rewrite Hth. cbn [bind]. reflexivity.
       - destruct (optimum_poling_period R_ops K minpos sig (s_pump s) (s_crystal s)) as [[per | []] | |] eqn:Hper; cbn [bind]; try discriminate.
         + intros H; inversion H; subst cs pp nfp.
           destruct (poling_new_on per a) as (p1 & sg1 & Hpn). rewrite Hpn at 1. rewrite Hper. cbn [bind]. reflexivity.
         + intros H; inversion H; subst cs pp nfp. rewrite Hper. cbn [bind]. reflexivity. }
     rewrite Hcp2. cbn [bind fst snd].
     assert (Hi2 : idler_optimum R_ops K sig (s_pump s') cs (if op then s_pp s' else pp) = Ok (idler0, nfi)).
-    { subst s'. cbn [s_pump s_pp]. rewrite (idler_optimum_pp sig (s_pump s) cs (if op then pp else pp) (if op then s_pp s else pp) HK Hcol). exact Hi. }
+    { subst s'. cbn [s_pump s_pp]. rewrite <- Hi. destruct op; [| reflexivity].
+      unfold idler_optimum. fold sig in HK2. rewrite (HK2 cs pp nfp eq_refl). reflexivity. }
     rewrite Hi2. cbn [bind fst snd].
     destruct (idler_optimum_fields _ _ _ _ _ _ Hi) as [Hw0 Hp0].
     unfold finish_optimum. f_equal. rewrite <- Hnf. subst s'. cbn [s_idler s_pump s_bandwidth s_power s_threshold s_deff b_waist set_waist].
@@ -146,6 +163,11 @@ Section Idempotent.
       unfold sig, idler_wavelength. rewrite (proj1 (opt_signal_keeps s)). reflexivity. }
     rewrite Hwp. reflexivity.
   Qed.
+
+  Theorem optimum_idempotent s s' nf :
+    collinear_contract K -> (oi = true -> idler_consistent s) ->
+    try_as_optimum s = Ok (s', nf) -> try_as_optimum s' = Ok (s', nf).
+  Proof. intros HK. apply optimum_idempotent_at. apply collinear_contract_every. exact HK. Qed.
 
   (* after one optimisation the idler IS consistent *)
   Lemma optimum_idler_consistent s s' nf : try_as_optimum s = Ok (s', nf) -> idler_consistent s'.
@@ -189,12 +211,51 @@ Section Idempotent.
         intros H; inversion H; subst; unfold poling_new; try destruct (nltb R_ops _ _);
         repeat split; auto using opt_signal_collinear; try discriminate; try (intros; congruence).
   Qed.
+  (* ... and the rest of what is NOT optimised: the crystal's azimuth, phase-matching type and propagation mode, the signal's
+     polarization, the apodization of the poling; and what the new idler is: energy-conserving wavelength, the type's idler
+     polarization, azimuth opposite to the (optimised) signal's *)
+  Theorem optimum_keeps_more s s' nf :
+    try_as_optimum s = Ok (s', nf) ->
+    cs_phi (s_crystal s') = cs_phi (s_crystal s) /\ cs_pm (s_crystal s') = cs_pm (s_crystal s) /\
+    cs_counter (s_crystal s') = cs_counter (s_crystal s) /\
+    b_pol (s_signal s') = b_pol (s_signal s) /\
+    b_pol (s_idler s') = idler_polarization (cs_pm (s_crystal s)) /\
+    b_phi (s_idler s') = normalize_angle R_ops (nadd R_ops (b_phi (s_signal s')) (npi R_ops)) /\
+    b_wavelength (s_idler s') = idler_wavelength R_ops (s_signal s') (s_pump s) /\
+    match s_pp s, s_pp s' with
+    | PolOff, PolOff => True
+    | PolOn _ _ a, PolOn _ _ a' => a' = a
+    | _, _ => False
+    end.
+  Proof.
+    unfold Config.try_as_optimum. cbv zeta.
+    destruct (opt_crystal_poling R_ops K minpos s (opt_signal R_ops s)) as [[[cs pp] nfp] | |] eqn:Hcp; cbn [bind fst snd]; try discriminate.
+    destruct (idler_optimum R_ops K (opt_signal R_ops s) (s_pump s) cs (if op then s_pp s else pp)) as [[idler0 nfi] | |] eqn:Hi; cbn [bind fst snd]; try discriminate.
+    intros H. inversion H. subst s' nf. clear H. unfold finish_optimum.
+    cbn [s_signal s_idler s_pump s_crystal s_pp set_waist b_pol b_phi b_wavelength].
+    destruct (opt_signal_keeps s) as (_ & _ & Hpol).
+    assert (Hid : b_pol idler0 = idler_polarization (cs_pm cs) /\
+                  b_phi idler0 = normalize_angle R_ops (nadd R_ops (b_phi (opt_signal R_ops s)) (npi R_ops)) /\
+                  b_wavelength idler0 = idler_wavelength R_ops (opt_signal R_ops s) (s_pump s)).
+    { revert Hi. unfold idler_optimum. destruct (signal_le_pump R_ops _ _); [discriminate |].
+      destruct (o_idler_theta K _ _ _ _); intros H; inversion H; subst; cbn [beam_new b_pol b_phi b_wavelength]; repeat split; reflexivity. }
+    destruct Hid as (Hp & Hph & Hw).
+    revert Hcp. unfold opt_crystal_poling. destruct (s_pp s) as [| per0 sg0 a].
+    - destruct (optimum_theta R_ops K (s_crystal s) _ _); cbn [bind]; try discriminate. intros H; inversion H; subst cs pp nfp.
+      cbn [set_crystal_theta cs_phi cs_pm cs_counter] in *. repeat split; auto.
+    - destruct (optimum_poling_period R_ops K minpos _ _ _) as [[per | []] | |]; cbn [bind]; try discriminate;
+        intros H; inversion H; subst cs pp nfp; unfold poling_new; try destruct (nltb R_ops _ _); repeat split; auto.
+  Qed.
 End Idempotent.
 
 (* FULL STRENGTH for the code as it is now (flags read off the source): the idler waist position is computed from the NEW idler,
    so optimising is idempotent for EVERY setup.  `discriminate` below is the obligation optimum_waist_sees_old_idler = false. *)
 Definition try_as_optimum_now (K : oracles R) (minpos : R) (s : spdc R) : outcome (spdc R * list nonfinite) :=
   try_as_optimum R_ops K minpos optimum_idler_sees_old_poling optimum_waist_sees_old_idler s.
+
+Theorem optimum_idempotent_now_at K minpos s s' nf :
+  optimum_contract_at K minpos s -> try_as_optimum_now K minpos s = Ok (s', nf) -> try_as_optimum_now K minpos s' = Ok (s', nf).
+Proof. intros HK. apply optimum_idempotent_at; [exact HK | discriminate]. Qed.
 
 Theorem optimum_idempotent_now K minpos s s' nf :
   collinear_contract K -> try_as_optimum_now K minpos s = Ok (s', nf) -> try_as_optimum_now K minpos s' = Ok (s', nf).
